@@ -2,7 +2,7 @@
    Model: Model/World.v (worlds of applications; construct / add / embed). *)
 From Coq Require Import List String Bool ZArith.
 Import ListNotations.
-From ClasticV Require Import Base.Py Base.PyList Model.Dispatch Model.World Proofs.WorldProofs.
+From ClasticV Require Import Gen.WorldShape Base.Py Base.PyList Model.Dispatch Model.World Proofs.WorldProofs.
 Local Open Scope list_scope.
 
 (* the insert loop of add() (index resolved once; insert, index += 1) is ONE
@@ -47,3 +47,94 @@ Example C11_example :
   add_routes [1; 2; 3] None [8; 9] = [1; 2; 3; 8; 9] /\
   add_routes [1; 2; 3] (Some 1%Z) [8; 9] = [1; 8; 9; 2; 3].
 Proof. vm_compute. repeat split; reflexivity. Qed.
+
+Local Open Scope string_scope.
+Local Open Scope list_scope.
+(* obligation on the source: the control-flow skeletons of Application.__init__ / add / iter_routes, cast_to_route_factory and Route, regenerated from the source on every run.  The model is a
+   hand transcription of exactly these statements: any edit re-opens the correspondence question (the check then searches
+   for a failing input and reports what it finds) *)
+Theorem C11_construction_shape :
+  SK_APPLICATION_INIT =
+  ["self.debug = kwargs.pop('debug', None)";
+   "self.slash_mode = kwargs.pop('slash_mode', S_REDIRECT)";
+   "if kwargs";
+   "  raise TypeError('unexpected keyword args: %r' % kwargs.keys())";
+   "self.resources = dict(resources or {})";
+   "resource_conflicts = [r for r in RESERVED_ARGS if r in self.resources]";
+   "if resource_conflicts";
+   "  raise NameError('resource names conflict with builtins: %r' % resource_conflicts)";
+   "self.middlewares = list(middlewares or [])";
+   "check_middlewares(self.middlewares)";
+   "self.render_factory = render_factory";
+   "self.set_error_handler(error_handler)";
+   "routes = routes or []";
+   "self.routes = []";
+   "self._null_route = NullRoute().bind(self)";
+   "for entry in routes";
+   "  self.add(entry)";
+   "all_mws = _get_all_middlewares([self._null_route] + self.routes)";
+   "for mw in reversed(all_mws)";
+   "  self._dispatch_wsgi = _safe_wrap_wsgi('middleware', mw, self._dispatch_wsgi)";
+   "return"] /\
+  SK_APPLICATION_ADD =
+  ["if index is None";
+   "  index = len(self.routes)";
+   "else";
+   "  if index < 0";
+   "    index = max(len(self.routes) + index, 0)";
+   "rf = cast_to_route_factory(entry)";
+   "kwargs.setdefault('rebind_render', getattr(rf, 'rebind_render', True))";
+   "kwargs.setdefault('inherit_slashes', getattr(rf, 'inherit_slashes', True))";
+   "if callable(getattr(rf, 'bind_all', None))";
+   "  bound_routes = rf.bind_all(self, **kwargs)";
+   "else";
+   "  bound_routes = [rf.bind(self, **kwargs)]";
+   "for br in bound_routes";
+   "  self.routes.insert(index, br)";
+   "  index += 1";
+   "return"] /\
+  SK_APPLICATION_ITER_ROUTES =
+  ["for rt in self.routes";
+   "  yield rt"] /\
+  SK_CAST_TO_ROUTE_FACTORY =
+  ["if isinstance(in_arg, (Route, SubApplication))";
+   "  return in_arg";
+   "else";
+   "  if isinstance(in_arg, Sequence)";
+   "    try";
+   "      if isinstance(in_arg[1], Application)";
+   "        return SubApplication(*in_arg)";
+   "      if callable(in_arg[1])";
+   "        return Route(*in_arg)";
+   "    except TypeError";
+   "      pass";
+   "raise TypeError('Could not create route from %r' % (in_arg,))"] /\
+  SK_ROUTE_INIT =
+  ["self.middlewares = list(kwargs.pop('middlewares', []))";
+   "self.resources = dict(kwargs.pop('resources', []))";
+   "self.slash_mode = kwargs.pop('slash_mode', S_REDIRECT)";
+   "methods = kwargs.pop('methods', None)";
+   "if kwargs";
+   "  raise TypeError('unexpected keyword args: %r' % kwargs.keys())";
+   "self.methods = methods and set([m.upper() for m in methods])";
+   "if self.methods";
+   "  unknown_methods = list(self.methods - HTTP_METHODS)";
+   "  if unknown_methods";
+   "    raise InvalidMethod('unrecognized HTTP method(s): %r' % unknown_methods)";
+   "  if 'GET' in self.methods";
+   "    self.methods.add('HEAD')";
+   "_compile_path_pattern(pattern, self.slash_mode)";
+   "self.pattern = pattern";
+   "if not callable(endpoint)";
+   "  raise TypeError('expected endpoint to be a function or method, not: %r' % endpoint)";
+   "self.endpoint = endpoint";
+   "self.render_error = render_error";
+   "if callable(render_error)";
+   "  check_render_error(render_error, self.resources)";
+   "self.render = render"] /\
+  SK_ROUTE_BIND =
+  ["return BoundRoute(self, app, **kwargs)"] /\
+  SK_ROUTE_ITER_ROUTES =
+  ["yield self"].
+Proof. repeat split; reflexivity. Qed.
+Print Assumptions C11_construction_shape.
